@@ -15,7 +15,7 @@ use sync_common::*;
 use vharness::common::*;
 
 #[derive(Clone, Debug, PartialEq)]
-struct Row { id: u64, rowid: i64, mdate: i64, a: String, b: Option<String> }
+struct Row { id: u64, rowid: i64, mdate: i64, a: Option<String>, b: Option<String> }
 
 fn gtext(s: &str) -> String { glist(&s.bytes().map(|c| gn(c as u64)).collect::<Vec<_>>()) }
 fn gotext(s: &Option<String>) -> String { match s { Some(t) => format!("(Some {})", gtext(t)), None => "None".to_string() } }
@@ -23,8 +23,19 @@ fn push_text(obs: &mut Vec<i64>, s: &str) { obs.push(s.len() as i64); for c in s
 
 struct View { base_rowid: i64, n0: i64, t0: i64, ops: Vec<String>, obs: Vec<i64>, checks: usize, mism: usize, errs: usize, synced: usize }
 
+/// the indexed entity of a history: Doc (a mandatory, b nullable), Note (both nullable), Memo (one nullable field)
+#[derive(Clone, Copy, Debug, PartialEq)]
+enum Ent { Doc, Note, Memo }
+impl Ent {
+    fn name(&self) -> &'static str { match self { Ent::Doc => "ns.Doc", Ent::Note => "ns.Note", Ent::Memo => "ns.Memo" } }
+    fn a_nullable(&self) -> bool { !matches!(self, Ent::Doc) }
+    fn has_b(&self) -> bool { !matches!(self, Ent::Memo) }
+}
+
 struct Hist<'a> {
     net: &'a Net,
+    ent: Ent,
+    tokens: Vec<String>,
     room: Uid,
     n: usize,
     ids: Vec<Uid>,
@@ -35,8 +46,8 @@ struct Hist<'a> {
 }
 
 impl<'a> Hist<'a> {
-    async fn new(net: &'a Net, n: usize, seen_max: &'a mut Vec<i64>) -> Hist<'a> {
-        let room = net.create_room(T0 - 30 * DAY, &["ns.Doc", "ns.Plain"]).await;
+    async fn new(net: &'a Net, n: usize, ent: Ent, seen_max: &'a mut Vec<i64>) -> Hist<'a> {
+        let room = net.create_room(T0 - 30 * DAY, &["ns.Doc", "ns.Plain", "ns.Note", "ns.Memo"]).await;
         let mut views = vec![];
         for p in 0..n {
             // fence: no new row of this history may take a storage slot used in an earlier history
@@ -48,7 +59,7 @@ impl<'a> Hist<'a> {
             let (n0, t0) = net.fts_totals(p).await;
             views.push(View { base_rowid, n0, t0, ops: vec![], obs: vec![], checks: 0, mism: 0, errs: 0, synced: 0 });
         }
-        Hist { net, room, n, ids: vec![], views, words: BTreeSet::new(), t: T0 + 1000, seen_max }
+        Hist { net, ent, tokens: vec![], room, n, ids: vec![], views, words: BTreeSet::new(), t: T0 + 1000, seen_max }
     }
     fn index_of(&self, id: &Uid) -> Option<u64> { self.ids.iter().position(|u| u == id).map(|i| i as u64 + 1) }
 
@@ -59,10 +70,9 @@ impl<'a> Hist<'a> {
             if r.rowid > self.seen_max[p] { self.seen_max[p] = r.rowid; }
             let v: serde_json::Value = serde_json::from_str(r.json.as_deref().unwrap_or("{}")).unwrap();
             let o = v.as_object().unwrap();
-            let mut keys: Vec<&String> = o.keys().collect();
-            keys.sort();
-            let a = o[keys[0]].as_str().unwrap_or("").to_string();
-            let b = keys.get(1).and_then(|k| o[*k].as_str()).map(|s| s.to_string());
+            // short names of the entity's fields: "32" = a, "33" = b (fields are numbered in model order)
+            let a = o.get("32").and_then(|v| v.as_str()).map(|s| s.to_string());
+            let b = o.get("33").and_then(|v| v.as_str()).map(|s| s.to_string());
             out.push(Row { id: self.index_of(&r.id).expect("foreign row"), rowid: r.rowid - base, mdate: r.mdate, a, b });
         }
         out.sort_by_key(|r| r.id);
@@ -72,11 +82,12 @@ impl<'a> Hist<'a> {
     async fn search(&self, p: usize, w: &str) -> Result<Vec<u64>, String> {
         let mut pa = Parameters::default();
         pa.add("w", w.to_string()).unwrap();
-        match self.net.peers[p].db.query("query { ns.Doc(search($w)) { id } }", Some(pa)).await {
+        let q = format!("query {{ {}(search($w)) {{ id }} }}", self.ent.name());
+        match self.net.peers[p].db.query(&q, Some(pa)).await {
             Ok(s) => {
                 let v: serde_json::Value = serde_json::from_str(&s).unwrap();
                 let mut ids = vec![];
-                for e in v["ns.Doc"].as_array().unwrap() {
+                for e in v[self.ent.name()].as_array().unwrap() {
                     let uid = discret::verif_hooks::security::uid_decode(e["id"].as_str().unwrap()).unwrap();
                     if let Some(i) = self.index_of(&uid) { ids.push(i); } // rows of earlier histories are ignored
                 }
@@ -90,21 +101,23 @@ impl<'a> Hist<'a> {
     /// dump + search every known word on peer p
     async fn check(&mut self, p: usize, rng: &mut Rng) {
         let rows = self.rows(p).await;
-        // at most 10 words: the most recent tokens, a few older ones, one two-letter word
-        let all: Vec<String> = self.words.iter().cloned().collect();
+        // EVERY token of every past and current text (the 30 most recent ones), a few 3-letter
+        // substrings, one two-letter word
         let mut ws: Vec<String> = vec![];
-        for _ in 0..9 { if !all.is_empty() { let w = rng.pick(&all).clone(); if !ws.contains(&w) { ws.push(w); } } }
+        for w in self.tokens.iter().rev() { if ws.len() < 30 && !ws.contains(w) { ws.push(w.clone()); } }
+        let all: Vec<String> = self.words.iter().cloned().collect();
+        for _ in 0..6 { if !all.is_empty() { let w = rng.pick(&all).clone(); if !ws.contains(&w) { ws.push(w); } } }
         ws.push("ab".to_string());
         let mut block: Vec<i64> = vec![rows.len() as i64];
         for r in &rows {
             block.push(r.id as i64); block.push(r.rowid);
-            push_text(&mut block, &r.a);
+            match &r.a { Some(t) => { block.push(1); push_text(&mut block, t); } None => block.push(0) }
             match &r.b { Some(t) => { block.push(1); push_text(&mut block, t); } None => block.push(0) }
         }
         for w in &ws {
             match self.search(p, w).await {
                 Ok(ids) => {
-                    let want: Vec<u64> = rows.iter().filter(|r| r.a.contains(w.as_str()) || r.b.as_ref().map(|t| t.contains(w.as_str())).unwrap_or(false)).map(|r| r.id).collect();
+                    let want: Vec<u64> = rows.iter().filter(|r| r.a.as_ref().map(|t| t.contains(w.as_str())).unwrap_or(false) || r.b.as_ref().map(|t| t.contains(w.as_str())).unwrap_or(false)).map(|r| r.id).collect();
                     if w.len() >= 3 && ids != want { self.views[p].mism += 1; }
                     block.push(ids.len() as i64);
                     for i in ids { block.push(i as i64); }
@@ -120,48 +133,50 @@ impl<'a> Hist<'a> {
 
     fn note_text(&mut self, s: &str, rng: &mut Rng) {
         for tok in s.split(' ') {
-            if tok.len() >= 3 { self.words.insert(tok.to_string()); }
+            if tok.len() >= 3 && !self.tokens.contains(&tok.to_string()) { self.tokens.push(tok.to_string()); }
             if tok.len() >= 4 { let i = rng.below(tok.len() as u64 - 2) as usize; self.words.insert(tok[i..i + 3].to_string()); }
         }
     }
 
-    async fn create(&mut self, p: usize, a: &str, b: Option<&str>, rng: &mut Rng) -> u64 {
+    async fn create(&mut self, p: usize, a: Option<&str>, b: Option<&str>, rng: &mut Rng) -> u64 {
         self.t += 1000;
         verif_clock::set(self.t);
         let mut pa = Parameters::default();
         pa.add("room_id", b64(&self.room)).unwrap();
-        pa.add("a", a.to_string()).unwrap();
-        let q = match b { Some(t) => { pa.add("b", t.to_string()).unwrap(); "mutate { ns.Doc{ room_id:$room_id a:$a b:$b } }" } None => "mutate { ns.Doc{ room_id:$room_id a:$a } }" };
-        let r = self.net.peers[p].db.mutate_raw(q, Some(pa)).await.expect("create");
+        let mut fields = String::new();
+        if let Some(t) = a { pa.add("a", t.to_string()).unwrap(); fields.push_str(" a:$a"); }
+        if let Some(t) = b { pa.add("b", t.to_string()).unwrap(); fields.push_str(" b:$b"); }
+        let q = format!("mutate {{ {}{{ room_id:$room_id{} }} }}", self.ent.name(), fields);
+        let r = self.net.peers[p].db.mutate_raw(&q, Some(pa)).await.expect("create");
         self.ids.push(r.mutate_entities[0].node_to_mutate.id);
         let x = self.ids.len() as u64;
-        self.note_text(a, rng);
+        if let Some(t) = a { self.note_text(t, rng); }
         if let Some(t) = b { self.note_text(t, rng); }
         self.net.barrier(p).await;
         let v = &mut self.views[p];
-        v.ops.push(format!("FCreate {} {} {}", gn(x), gtext(a), gotext(&b.map(|s| s.to_string()))));
+        v.ops.push(format!("FCreate {} {} {}", gn(x), gotext(&a.map(|s| s.to_string())), gotext(&b.map(|s| s.to_string()))));
         v.obs.push(1);
         self.check(p, rng).await;
         x
     }
 
     /// a: new value of field a (None = untouched); b: None = untouched, Some(None) = null, Some(Some(t)) = t
-    async fn update(&mut self, p: usize, x: u64, a: Option<&str>, b: Option<Option<&str>>, rng: &mut Rng) -> i64 {
+    async fn update(&mut self, p: usize, x: u64, a: Option<Option<&str>>, b: Option<Option<&str>>, rng: &mut Rng) -> i64 {
         self.t += 1000;
         verif_clock::set(self.t);
         let mut pa = Parameters::default();
         pa.add("id", b64(&self.ids[x as usize - 1])).unwrap();
         let mut fields = String::new();
-        if let Some(t) = a { pa.add("a", t.to_string()).unwrap(); fields.push_str(" a:$a"); self.note_text(t, rng); }
+        match a { Some(Some(t)) => { pa.add("a", t.to_string()).unwrap(); fields.push_str(" a:$a"); self.note_text(t, rng); } Some(None) => fields.push_str(" a:null"), None => {} }
         match b { Some(Some(t)) => { pa.add("b", t.to_string()).unwrap(); fields.push_str(" b:$b"); self.note_text(t, rng); } Some(None) => fields.push_str(" b:null"), None => {} }
-        let q = format!("mutate {{ ns.Doc{{ id:$id{} }} }}", fields);
+        let q = format!("mutate {{ {}{{ id:$id{} }} }}", self.ent.name(), fields);
         let flag = match self.net.peers[p].db.mutate_raw(&q, Some(pa)).await {
             Ok(_) => 1,
             Err(DbError::DatabaseWrite(_)) => 2,
             Err(_) => 0,
         };
         self.net.barrier(p).await;
-        let ga = match a { Some(t) => format!("(Some {})", gtext(t)), None => "None".to_string() };
+        let ga = match a { Some(v) => format!("(Some {})", gotext(&v.map(|s| s.to_string()))), None => "None".to_string() };
         let gb = match b { Some(v) => format!("(Some {})", gotext(&v.map(|s| s.to_string()))), None => "None".to_string() };
         let v = &mut self.views[p];
         v.ops.push(format!("FUpdate {} {} {}", gn(x), ga, gb));
@@ -175,7 +190,7 @@ impl<'a> Hist<'a> {
         verif_clock::set(self.t);
         let mut pa = Parameters::default();
         pa.add("id", b64(&self.ids[x as usize - 1])).unwrap();
-        let r = self.net.peers[p].db.delete("delete { ns.Doc{ $id } }", Some(pa)).await.expect("delete");
+        let r = self.net.peers[p].db.delete(&format!("delete {{ {}{{ $id }} }}", self.ent.name()), Some(pa)).await.expect("delete");
         self.net.barrier(p).await;
         let v = &mut self.views[p];
         v.ops.push(format!("FDelete {}", gn(x)));
@@ -193,7 +208,7 @@ impl<'a> Hist<'a> {
         let mut dels: Vec<(i64, u64)> = vec![]; // (rowid, id)
         let mut news: Vec<&Row> = vec![];
         let mut ops: Vec<String> = vec![];
-        let put = |r: &Row| format!("FSyncPut {} {} {}", gn(r.id), gtext(&r.a), gotext(&r.b));
+        let put = |r: &Row| format!("FSyncPut {} {} {}", gn(r.id), gotext(&r.a), gotext(&r.b));
         for r in &before {
             match amap.get(&r.id) {
                 None => dels.push((r.rowid, r.id)),
@@ -259,77 +274,131 @@ fn gen_text(rng: &mut Rng) -> String {
 
 /// K1: a row that arrives by synchronisation is not found on the receiver; K3: editing it locally
 async fn k1(net: &Net, rng: &mut Rng, seen: &mut Vec<i64>) -> Vec<Case> {
-    let mut h = Hist::new(net, 2, seen).await;
-    let x = h.create(0, "abcab 1ca1", None, rng).await;
+    let mut h = Hist::new(net, 2, Ent::Doc, seen).await;
+    let x = h.create(0, Some("abcab 1ca1"), None, rng).await;
     h.pull(1, 0, rng).await;
-    h.update(0, x, Some("ccc1b abcab"), None, rng).await;
+    h.update(0, x, Some(Some("ccc1b abcab")), None, rng).await;
     h.pull(1, 0, rng).await;
     h.update(1, x, None, Some(Some("bb1bb")), rng).await;
     h.cases("k1_sync", json!({}))
 }
 /// K2: delete the last row, create another: the new row answers for the deleted text
 async fn k2(net: &Net, rng: &mut Rng, seen: &mut Vec<i64>) -> Vec<Case> {
-    let mut h = Hist::new(net, 1, seen).await;
-    h.create(0, "aaa1 bcb", None, rng).await;
-    let y = h.create(0, "cabca 11ab", Some("b1b1b"), rng).await;
+    let mut h = Hist::new(net, 1, Ent::Doc, seen).await;
+    h.create(0, Some("aaa1 bcb"), None, rng).await;
+    let y = h.create(0, Some("cabca 11ab"), Some("b1b1b"), rng).await;
     h.delete(0, y, rng).await;
-    h.create(0, "1c1c abca", None, rng).await;
-    let z = h.create(0, "bcbcb", None, rng).await;
+    h.create(0, Some("1c1c abca"), None, rng).await;
+    let z = h.create(0, Some("bcbcb"), None, rng).await;
     h.delete(0, z, rng).await;
     h.cases("k2_slot_reuse", json!({}))
 }
 /// K3: local edits of rows received by synchronisation drain the index totals until the edit is refused
 async fn k3(net: &Net, rng: &mut Rng, seen: &mut Vec<i64>) -> Vec<Case> {
-    let mut h = Hist::new(net, 2, seen).await;
+    let mut h = Hist::new(net, 2, Ent::Doc, seen).await;
     let mut xs = vec![];
-    for i in 0..4 { xs.push(h.create(0, &format!("abcabcabcabcabcabcabcabcabcabcabcabcabcabcabcabc1{} aaaa", i), None, rng).await); }
+    for i in 0..4 { xs.push(h.create(0, Some(&format!("abcabcabcabcabcabcabcabcabcabcabcabcabcabcabcabc1{} aaaa", i)), None, rng).await); }
     h.pull(1, 0, rng).await;
     let mut refused = 0;
-    for x in xs { if h.update(1, x, Some("cb1"), None, rng).await == 2 { refused += 1; } }
+    for x in xs { if h.update(1, x, Some(Some("cb1")), None, rng).await == 2 { refused += 1; } }
     h.cases("k3_edit_synced", json!({"edits_refused": refused}))
 }
-/// local histories only (the class the theorem C17_local_ok covers when no slot is reused)
+/// every text field of a row set to null — in ONE update, in successive updates, on an entity with a
+/// single text field —, the former text searched, then text set again
+async fn null_all(net: &Net, rng: &mut Rng, seen: &mut Vec<i64>) -> Vec<Case> {
+    let mut out = vec![];
+    {
+        let mut h = Hist::new(net, 1, Ent::Note, seen).await;
+        let x = h.create(0, Some("abcab 1ca1"), Some("ccb1c"), rng).await;
+        let y = h.create(0, Some("bbca1 abcab"), Some("1c1c1"), rng).await;
+        let z = h.create(0, None, None, rng).await;                       // a row that never had text
+        h.update(0, x, Some(None), Some(None), rng).await;                // both fields in one update
+        h.update(0, y, Some(None), None, rng).await;                      // one after the other
+        h.update(0, y, None, Some(None), rng).await;
+        h.update(0, x, None, Some(Some("a1a1a bcc")), rng).await;         // text again
+        h.update(0, y, Some(Some("cab1c")), None, rng).await;
+        h.update(0, z, Some(Some("1ca1 ccb1c")), None, rng).await;
+        h.update(0, z, Some(None), None, rng).await;
+        out.extend(h.cases("null_all_two_fields", json!({})));
+    }
+    {
+        let mut h = Hist::new(net, 1, Ent::Memo, seen).await;
+        let x = h.create(0, Some("abcab 1ca1"), None, rng).await;
+        h.update(0, x, Some(None), None, rng).await;
+        h.update(0, x, Some(Some("bc1bc")), None, rng).await;
+        h.update(0, x, Some(None), None, rng).await;
+        h.update(0, x, Some(None), None, rng).await;                      // null again on a row without text
+        h.update(0, x, Some(Some("abcab")), None, rng).await;
+        out.extend(h.cases("null_all_one_field", json!({})));
+    }
+    {
+        let mut h = Hist::new(net, 1, Ent::Doc, seen).await;                // mandatory a, nullable b
+        let x = h.create(0, Some("ab1ab"), Some("ccabc 1bb1"), rng).await;
+        h.update(0, x, None, Some(None), rng).await;
+        h.update(0, x, None, Some(Some("bb1ab")), rng).await;
+        out.extend(h.cases("null_b", json!({})));
+    }
+    out
+}
+
+fn pick_ent(rng: &mut Rng) -> Ent { match rng.below(5) { 0..=1 => Ent::Doc, 2..=3 => Ent::Note, _ => Ent::Memo } }
+
+/// a generated local step on peer p; returns the id of a created row
+async fn gen_create(h: &mut Hist<'_>, p: usize, rng: &mut Rng) -> u64 {
+    let ent = h.ent;
+    let a = if ent.a_nullable() && rng.chance(1, 6) { None } else { Some(gen_text(rng)) };
+    let b = if ent.has_b() && rng.chance(1, 3) { Some(gen_text(rng)) } else { None };
+    h.create(p, a.as_deref(), b.as_deref(), rng).await
+}
+async fn gen_update(h: &mut Hist<'_>, p: usize, x: u64, rng: &mut Rng) {
+    let ent = h.ent;
+    let ta = gen_text(rng);
+    let tb = gen_text(rng);
+    // a: untouched / text / null (where the entity allows it); b likewise; "all text fields to null" is frequent
+    let (a, b): (Option<Option<&str>>, Option<Option<&str>>) = match rng.below(10) {
+        0..=2 => (Some(Some(ta.as_str())), None),
+        3..=4 if ent.has_b() => (None, Some(Some(tb.as_str()))),
+        5 if ent.has_b() => (Some(Some(ta.as_str())), Some(Some(tb.as_str()))),
+        6 if ent.has_b() => (None, Some(None)),
+        7 if ent.a_nullable() => (Some(None), None),
+        8..=9 if ent.a_nullable() => (Some(None), if ent.has_b() { Some(None) } else { None }),
+        _ => (Some(Some(ta.as_str())), None),
+    };
+    h.update(p, x, a, b, rng).await;
+}
+
+/// local histories only (the class the theorem C17_outside_known covers when no slot is reused)
 async fn local(net: &Net, rng: &mut Rng, seen: &mut Vec<i64>) -> Vec<Case> {
-    let mut h = Hist::new(net, 1, seen).await;
+    let ent = pick_ent(rng);
+    let mut h = Hist::new(net, 1, ent, seen).await;
     let mut live: Vec<u64> = vec![];
     for _ in 0..(6 + rng.below(8)) {
         match rng.below(10) {
-            0..=3 => { let a = gen_text(rng); let b = if rng.chance(1, 3) { Some(gen_text(rng)) } else { None }; let x = h.create(0, &a, b.as_deref(), rng).await; live.push(x); }
-            4..=8 if !live.is_empty() => {
-                let x = *rng.pick(&live);
-                let a = if rng.chance(2, 3) { Some(gen_text(rng)) } else { None };
-                let bt = gen_text(rng);
-                let b = match rng.below(4) { 0 => Some(None), 1 => Some(Some(bt.as_str())), _ => if a.is_none() { Some(Some(bt.as_str())) } else { None } };
-                h.update(0, x, a.as_deref(), b, rng).await;
-            }
+            0..=2 => { let x = gen_create(&mut h, 0, rng).await; live.push(x); }
+            3..=8 if !live.is_empty() => { let x = *rng.pick(&live); gen_update(&mut h, 0, x, rng).await; }
             _ if live.len() > 1 => { let i = rng.below(live.len() as u64 - 1) as usize; let x = live.remove(i); h.delete(0, x, rng).await; } // never the newest row
             _ => {}
         }
     }
-    h.cases("local", json!({}))
+    h.cases("local", json!({"entity": ent.name()}))
 }
 async fn random(net: &Net, rng: &mut Rng, seen: &mut Vec<i64>) -> Vec<Case> {
     let n = 1 + rng.below(3) as usize;
-    let mut h = Hist::new(net, n, seen).await;
+    let ent = pick_ent(rng);
+    let mut h = Hist::new(net, n, ent, seen).await;
     let mut live: Vec<Vec<u64>> = vec![vec![]; n];
     for _ in 0..(6 + rng.below(10)) {
         let p = rng.below(n as u64) as usize;
         match rng.below(12) {
-            0..=3 => { let a = gen_text(rng); let b = if rng.chance(1, 3) { Some(gen_text(rng)) } else { None }; let x = h.create(p, &a, b.as_deref(), rng).await; live[p].push(x); }
-            4..=6 if !live[p].is_empty() => {
-                let x = *rng.pick(&live[p]);
-                let a = if rng.chance(2, 3) { Some(gen_text(rng)) } else { None };
-                let bt = gen_text(rng);
-                let b = match rng.below(4) { 0 => Some(None), 1 => Some(Some(bt.as_str())), _ => if a.is_none() { Some(Some(bt.as_str())) } else { None } };
-                h.update(p, x, a.as_deref(), b, rng).await;
-            }
+            0..=3 => { let x = gen_create(&mut h, p, rng).await; live[p].push(x); }
+            4..=6 if !live[p].is_empty() => { let x = *rng.pick(&live[p]); gen_update(&mut h, p, x, rng).await; }
             7..=8 if !live[p].is_empty() => { let i = rng.below(live[p].len() as u64) as usize; let x = live[p][i]; h.delete(p, x, rng).await; }
             _ if n > 1 => { let src = (p + 1 + rng.below(n as u64 - 1) as usize) % n; h.pull(p, src, rng).await; }
             _ => {}
         }
         for q in 0..n { live[q] = h.rows(q).await.iter().map(|r| r.id).collect(); }
     }
-    h.cases("random", json!({}))
+    h.cases("random", json!({"entity": ent.name()}))
 }
 
 #[tokio::main(flavor = "multi_thread")]
@@ -343,6 +412,7 @@ async fn main() {
     for c in k1(&net, &mut rng.fork(), &mut seen).await { out.push(c); }
     for c in k2(&net, &mut rng.fork(), &mut seen).await { out.push(c); }
     for c in k3(&net, &mut rng.fork(), &mut seen).await { out.push(c); }
+    for c in null_all(&net, &mut rng.fork(), &mut seen).await { out.push(c); }
     for _ in 0..scale(12, 200) { for c in local(&net, &mut rng.fork(), &mut seen).await { out.push(c); } }
     for _ in 0..scale(24, 400) { for c in random(&net, &mut rng.fork(), &mut seen).await { out.push(c); } }
     out.finish();
